@@ -49,7 +49,18 @@ pub fn load_bytes(bytes: &[u8]) -> Loaded {
 }
 
 pub fn case_bytes(case: &Value) -> (Vec<u8>, Option<Program>, Option<prog::Encoded>) {
-    let (mut bytes, prog, enc) = if let Some(p) = case.get("prog") {
+    let (mut bytes, prog, enc) = if let (Some(f), Some(p)) = (case.get("file").and_then(|h| h.as_str()), case.get("prog")) {
+        let mut p: Program = serde_json::from_value(p.clone()).unwrap_or_else(|e| {
+            eprintln!("bad program in case {}: {}", case["id"], e);
+            std::process::exit(2)
+        });
+        p.normalize();
+        let bytes = std::fs::read(f).unwrap_or_else(|e| {
+            eprintln!("cannot read {}: {}", f, e);
+            std::process::exit(2)
+        });
+        (bytes, Some(p), None)
+    } else if let Some(p) = case.get("prog") {
         let mut p: Program = match serde_json::from_value(p.clone()) {
             Ok(p) => p,
             Err(e) => {
@@ -686,8 +697,323 @@ pub fn util_cmd(args: &[String]) {
     }
     out.flush();
 }
-pub fn decode_cmd(_args: &[String]) {
-    unimplemented!()
+// ---------------------------------------------------------------------------------------
+// Independent decoder: bytes -> Program (the inverse of prog::encode, written against the file
+// format document, not against the library). Used for the corpus (G4): the decoded program is what
+// TLC derives the expected observation from, the library loads the original bytes.
+
+struct Rd<'a> {
+    b: &'a [u8],
+    p: usize,
+}
+impl<'a> Rd<'a> {
+    fn take(&mut self, n: usize) -> Option<&'a [u8]> {
+        if self.p + n > self.b.len() {
+            return None;
+        }
+        let s = &self.b[self.p..self.p + n];
+        self.p += n;
+        Some(s)
+    }
+    fn u8(&mut self) -> Option<u8> {
+        self.take(1).map(|s| s[0])
+    }
+    fn u16(&mut self) -> Option<u16> {
+        self.take(2).map(|s| u16::from_le_bytes([s[0], s[1]]))
+    }
+    fn i16(&mut self) -> Option<i16> {
+        self.u16().map(|v| v as i16)
+    }
+    fn u32(&mut self) -> Option<u32> {
+        self.take(4).map(|s| u32::from_le_bytes([s[0], s[1], s[2], s[3]]))
+    }
+    fn i32(&mut self) -> Option<i32> {
+        self.u32().map(|v| v as i32)
+    }
+    fn string(&mut self) -> Option<Vec<u8>> {
+        let n = self.u16()? as usize;
+        self.take(n).map(|s| s.to_vec())
+    }
+    fn rest(&mut self) -> &'a [u8] {
+        let s = &self.b[self.p..];
+        self.p = self.b.len();
+        s
+    }
+}
+
+fn inflate(data: &[u8]) -> Option<Vec<u8>> {
+    use std::io::Read;
+    let mut d = flate2::read::ZlibDecoder::new(data);
+    let mut out = vec![];
+    d.read_to_end(&mut out).ok()?;
+    Some(out)
+}
+
+fn decode_chunk(code: u16, body: &[u8], bpp: usize) -> Option<crate::prog::Chunk> {
+    use crate::prog::*;
+    let mut r = Rd { b: body, p: 0 };
+    Some(match code {
+        0x2004 => {
+            let flags = r.u16()?;
+            let ltype = r.u16()?;
+            let level = r.u16()?;
+            let dw = r.u16()?;
+            let dh = r.u16()?;
+            let blend = r.u16()?;
+            let opacity = r.u8()?;
+            r.take(3)?;
+            let name = r.string()?;
+            let tileset = if ltype == 2 { vec![U32S(r.u32()?)] } else { vec![] };
+            Chunk::Layer(LayerC { flags, ltype, level, blend, opacity, name, tileset, dw, dh, rsv: 0 })
+        }
+        0x2005 => {
+            let layer = r.u16()?;
+            let x = r.i16()?;
+            let y = r.i16()?;
+            let opacity = r.u8()?;
+            let ctype = r.u16()?;
+            r.take(7)?;
+            let mut c = CelC { layer, x, y, opacity, ctype, ..Default::default() };
+            c.bits = 32;
+            c.masks = [U32N(0x1fff_ffff), U32N(0x8000_0000), U32N(0x4000_0000), U32N(0x2000_0000)];
+            match ctype {
+                0 => {
+                    c.w = r.u16()?;
+                    c.h = r.u16()?;
+                    c.px = r.rest().chunks_exact(bpp).map(|p| p.to_vec()).collect();
+                }
+                1 => c.link = r.u16()?,
+                2 => {
+                    c.w = r.u16()?;
+                    c.h = r.u16()?;
+                    c.px = inflate(r.rest())?.chunks_exact(bpp).map(|p| p.to_vec()).collect();
+                }
+                3 => {
+                    c.w = r.u16()?;
+                    c.h = r.u16()?;
+                    c.bits = r.u16()?;
+                    for i in 0..4 {
+                        c.masks[i] = U32N(r.u32()?);
+                    }
+                    r.take(10)?;
+                    c.tiles = inflate(r.rest())?.chunks_exact(4).map(|t| U32N(u32::from_le_bytes([t[0], t[1], t[2], t[3]]))).collect();
+                }
+                _ => return None,
+            }
+            Chunk::Cel(c)
+        }
+        0x2018 => {
+            let n = r.u16()?;
+            r.take(8)?;
+            let mut tags = vec![];
+            for _ in 0..n {
+                let from = r.u16()?;
+                let to = r.u16()?;
+                let dir = r.u8()?;
+                let repeat = r.u16()?;
+                r.take(6)?;
+                let color = U32S(r.u32()?);
+                let name = r.string()?;
+                tags.push(TagP { from, to, dir, repeat, color, name });
+            }
+            Chunk::Tags(TagsC { tags })
+        }
+        0x2022 => {
+            let n = r.u32()?;
+            let flags = r.u32()?;
+            let rsv = r.u32()?;
+            let name = r.string()?;
+            let mut keys = vec![];
+            for _ in 0..n {
+                let mut k = KeyP { frame: U32S(r.u32()?), x: I32S(r.i32()?), y: I32S(r.i32()?), w: U32S(r.u32()?), h: U32S(r.u32()?), ..Default::default() };
+                if flags & 1 != 0 {
+                    k.s9 = S9P { cx: I32S(r.i32()?), cy: I32S(r.i32()?), cw: U32S(r.u32()?), ch: U32S(r.u32()?) };
+                }
+                if flags & 2 != 0 {
+                    k.pivot = PivP { x: I32S(r.i32()?), y: I32S(r.i32()?) };
+                }
+                keys.push(k);
+            }
+            Chunk::Slice(SliceC { name, flags: U32N(flags), keys, rsv: U32S(rsv) })
+        }
+        0x2020 => {
+            let flags = r.u32()?;
+            let text = if flags & 1 != 0 { vec![r.string()?] } else { vec![] };
+            let color = if flags & 2 != 0 {
+                let c = r.take(4)?;
+                vec![[c[0], c[1], c[2], c[3]]]
+            } else {
+                vec![]
+            };
+            Chunk::Ud(UdC { text, color })
+        }
+        0x2019 => {
+            let total = r.u32()?;
+            let first = r.u32()?;
+            let last = r.u32()?;
+            r.take(8)?;
+            let mut entries = vec![];
+            for _ in 0..(last.checked_sub(first)?.checked_add(1)?) {
+                let flags = r.u16()?;
+                let c = r.take(4)?;
+                let name = if flags & 1 == 1 { r.string()? } else { vec![] };
+                entries.push(PalE { flags, rgba: [c[0], c[1], c[2], c[3]], name });
+            }
+            Chunk::Pal(PalC { total: U32S(total), first: U32N(first), last: U32N(last), entries })
+        }
+        0x0004 | 0x0011 => {
+            let n = r.u16()?;
+            let mut packets = vec![];
+            for _ in 0..n {
+                let skip = r.u8()?;
+                let count = r.u8()?;
+                let k = if count == 0 { 256 } else { count as usize };
+                let mut rgb = vec![];
+                for _ in 0..k {
+                    let c = r.take(3)?;
+                    rgb.push([c[0], c[1], c[2]]);
+                }
+                packets.push(PacketP { skip, count, rgb });
+            }
+            if code == 4 {
+                Chunk::OldPal04(OldPalC { packets })
+            } else {
+                Chunk::OldPal11(OldPalC { packets })
+            }
+        }
+        0x2007 => {
+            let ptype = r.u16()?;
+            let flags = r.u16()?;
+            let gamma = U32S(r.u32()?);
+            r.take(8)?;
+            let icc = if ptype == 2 {
+                let n = r.u32()? as usize;
+                r.take(n)?.to_vec()
+            } else {
+                vec![]
+            };
+            Chunk::Profile(ProfileC { ptype, flags, gamma, icc })
+        }
+        0x2008 => {
+            let n = r.u32()?;
+            r.take(8)?;
+            let mut entries = vec![];
+            for _ in 0..n {
+                let id = U32S(r.u32()?);
+                let etype = r.u8()?;
+                r.take(7)?;
+                entries.push(ExtE { id, etype, name: r.string()? });
+            }
+            Chunk::ExtFiles(ExtFilesC { entries })
+        }
+        0x2023 => {
+            let id = U32S(r.u32()?);
+            let flags = r.u32()?;
+            let count = r.u32()?;
+            let tw = r.u16()?;
+            let th = r.u16()?;
+            let base = r.i16()?;
+            r.take(14)?;
+            let name = r.string()?;
+            let ext = if flags & 1 != 0 { ExtRef { file: U32S(r.u32()?), ts: U32S(r.u32()?) } } else { ExtRef::default() };
+            let px = if flags & 2 != 0 {
+                let clen = r.u32()? as usize;
+                let z = r.take(clen.min(r.b.len() - r.p))?;
+                inflate(z)?.chunks_exact(bpp).map(|p| p.to_vec()).collect()
+            } else {
+                vec![]
+            };
+            Chunk::Tileset(TilesetC { id, flags, count: U32N(count), tw, th, base, name, ext, px, store: "z6".into() })
+        }
+        0x2006 => Chunk::CelExtra(IgnC { body: body.to_vec() }),
+        0x2016 => Chunk::Mask(IgnC { body: body.to_vec() }),
+        0x2017 => Chunk::Path(IgnC { body: body.to_vec() }),
+        _ => Chunk::Raw(RawC { code, body: body.to_vec() }),
+    })
+}
+
+pub fn decode_bytes(bytes: &[u8]) -> Option<Program> {
+    use crate::prog::*;
+    let mut r = Rd { b: bytes, p: 0 };
+    let fsize = r.u32()?;
+    let magic = r.u16()?;
+    let nframes = r.u16()?;
+    let w = r.u16()?;
+    let h = r.u16()?;
+    let depth = r.u16()?;
+    let flags = r.u32()?;
+    let speed = r.u16()?;
+    r.take(8)?;
+    let tidx = r.u8()?;
+    r.take(3)?;
+    let ncolors = r.u16()?;
+    let pixw = r.u8()?;
+    let pixh = r.u8()?;
+    let gx = r.i16()?;
+    let gy = r.i16()?;
+    let gw = r.u16()?;
+    let gh = r.u16()?;
+    r.take(84)?;
+    let bpp = match depth {
+        8 => 1,
+        16 => 2,
+        _ => 4,
+    };
+    let mut frames = vec![];
+    for _ in 0..nframes {
+        let start = r.p;
+        let nbytes = r.u32()? as usize;
+        let fmagic = r.u16()?;
+        let old = r.u16()?;
+        let dur = r.u16()?;
+        let rsv = r.u16()?;
+        let new = r.u32()?;
+        let n = if new == 0 { old as u32 } else { new };
+        let mut chunks = vec![];
+        for _ in 0..n {
+            let cstart = r.p;
+            let size = r.u32()? as usize;
+            let code = r.u16()?;
+            let body = r.take(size.checked_sub(6)?)?;
+            let _ = cstart;
+            chunks.push(decode_chunk(code, body, bpp)?);
+        }
+        r.p = start + nbytes;
+        let count_field = if new == 0 { "old" } else if old == 0xFFFF { "old_ffff" } else if old == 0 && n > 0 { "new" } else { "both" };
+        frames.push(FrameP { dur, chunks, count_field: count_field.into(), pads: vec![], magic: fmagic, rsv });
+    }
+    let trailing = if r.p <= bytes.len() { bytes[r.p..].to_vec() } else { vec![] };
+    let mut p = Program {
+        hdr: Hdr { nframes: Some(nframes), w, h, depth, tidx, pixw, pixh, magic, flags: U32S(flags), speed, ncolors, grid: [gx, gy], gridsz: [gw, gh], fsize: Some(U32S(fsize)), rsv: 0 },
+        frames,
+        trailing,
+    };
+    p.normalize();
+    Some(p)
+}
+
+/// decode --in files.ndjson ({"id","file"}) --out cases.ndjson ({"id","file","prog","mode":"full"})
+pub fn decode_cmd(args: &[String]) {
+    let input = arg(args, "--in").unwrap_or("-");
+    let mut out = Out::new(arg(args, "--out").unwrap_or("-"));
+    for line in read_lines(input) {
+        if line.trim().is_empty() {
+            continue;
+        }
+        let c: Value = serde_json::from_str(&line).unwrap();
+        let (bytes, _, _) = case_bytes(&c);
+        match decode_bytes(&bytes) {
+            Some(p) => {
+                let mut cc = c.clone();
+                cc["prog"] = serde_json::to_value(&p).unwrap();
+                cc["mode"] = json!("full");
+                cc["meta"] = json!({"gen": "g4-corpus", "decoded": true});
+                out.ev(&cc);
+            }
+            None => eprintln!("decode: cannot decode {}", c["id"]),
+        }
+    }
+    out.flush();
 }
 #[allow(dead_code)]
 fn unused() {
